@@ -17,6 +17,7 @@ const (
 	sigLookahead = 4
 	sigPartition = 5
 	sigFinal     = 6
+	sigEntry     = 7
 )
 
 func computeRuleClasses(t *Tables, g *Grammar) []int {
@@ -110,6 +111,11 @@ func partitionStatesByAction(t *Tables, ruleClass []int, numStates int) ([]int, 
 		sig := stateSignature(i)
 		if final.Get(i) {
 			sig = append([]int{sigFinal}, sig...)
+		}
+		if i < len(t.FinalStates) {
+			// The parser enters input #i in state i, so entry states keep their numbers: two inputs
+			// that start with the same nonterminal have equivalent entry states but must not be merged.
+			sig = append([]int{sigEntry, i}, sig...)
 		}
 		partition[i] = partitions.Insert(sig)
 	}
